@@ -14,7 +14,9 @@ RULE = ('every kind of generated deck (flat partitions with complements and empt
         'finite numbers). Non-trivial = file has at least one UNION/INTE operator; distinct = distinct (deck, options).')
 NOT_PROVED = ['write/parse round trip is a theorem for VOLU lines (volume_line_roundtrip on words, volume_line_text_roundtrip '
               'from the text of the line) and for GEOMCOMP lines (geomcomp_line_roundtrip); SURF / TRANSFORM lines carry floats '
-              '(opaque in the kernel) and the COMPOSITION / BOUNDARY_CONDITION blocks have no writer model: '
+              '(opaque in the kernel) and the BOUNDARY_CONDITION block has no writer model (the COMPOSITION block has: '
+              'composition_counts_fit / composition_count_line are theorems about Model/Composition, tied to the code by the '
+              'compmodel stream of C10): '
               'checked per file by the fidelity stream (the Lean reader must find in the bytes exactly the dictionaries '
               'writeT4Geometry was handed)',
               'ids unique / one composition per volume / finite numbers: properties of the writers, '
